@@ -620,7 +620,48 @@ pub fn gen_long_entries(rng: &mut Prng) -> Vec<Entry> {
     out
 }
 
+/// sizes at and around 2^16 and 2^17: a user key whose internal key reaches 65 536 bytes, two keys
+/// sharing such a prefix, values of 64 KiB and more (compressible ones give multi-chunk Snappy
+/// blocks), next to ordinary short entries
+pub fn gen_huge_entries(rng: &mut Prng) -> Vec<Entry> {
+    let klen = *rng.pick(&[65_527usize, 65_528, 65_535, 65_536, 66_000, 70_000, 131_073]);
+    let fill = rng.range(98, 121) as u8;
+    let mut keys: Vec<Vec<u8>> = vec![b"apple".to_vec(), b"zebra".to_vec(), vec![fill; klen]];
+    if rng.chance(1, 2) {
+        let mut k2 = vec![fill; klen];
+        k2.push(b'x');
+        keys.push(k2);
+    }
+    if rng.chance(1, 2) {
+        keys.push(vec![fill; 3]);
+    }
+    keys.sort();
+    keys.dedup();
+    let mut out = vec![];
+    for k in keys {
+        let nv = rng.range(1, 2);
+        for j in 0..nv {
+            let v = match rng.below(6) {
+                0 => vec![b'V'; *rng.pick(&[65_535usize, 65_536, 65_537, 150_000])],
+                1 => {
+                    let n = *rng.pick(&[16_383usize, 16_384, 70_000]);
+                    rng.bytes(n)
+                }
+                _ => {
+                    let n = rng.range(0, 20) as usize;
+                    rng.bytes(n)
+                }
+            };
+            out.push((k.clone(), 50 - j, 1u8, v));
+        }
+    }
+    out
+}
+
 enum Job {
+    /// a table with keys / values of 64 KiB and more: implementation against the oracles only (the
+    /// list-based model driver needs minutes for such a table)
+    Huge(Case),
     Table(Case),
     Small(u64, usize),
 }
@@ -628,12 +669,17 @@ enum Job {
 fn job(j: &Job, drv: &mut Drv, rep: &mut Report) {
     match j {
         Job::Table(c) => run_case(c, drv, rep),
+        Job::Huge(c) => {
+            let _ = drv;
+            rep.count("c13.huge-tables-checked-against-the-oracles-only");
+            run_case(c, &mut Drv::spawn("none"), rep)
+        }
         Job::Small(seed, n) => run_small(*seed, drv, rep, *n),
     }
 }
 
 pub fn rule() -> &'static str {
-    "(1) key/byte separators and successors on generated key pairs (shared prefixes, adjacent bytes, 0xff runs); (2) blocks with restart intervals 1,2,3,16; (3) tables built by the real TableBuilder on SimFs from generated sorted entry sets (empty/one-byte/0xff keys, shared prefixes, many versions per key, tombstones, values empty..multi-block; plus long tables of 150-700 keys with incompressible values spanning many 2 KiB filter ranges) x max_block_size 16 B..1 MiB x Bloom bits 1..64: dump vs model, lookups at every (key, bound) around every entry, random cursor programs with reversals; (4) the table's filter block. Non-trivial = at least two entries / distinct keys; distinct by case text."
+    "(1) key/byte separators and successors on generated key pairs (shared prefixes, adjacent bytes, 0xff runs); (2) blocks with restart intervals 1,2,3,16; (3) tables built by the real TableBuilder on SimFs from generated sorted entry sets (empty/one-byte/0xff keys, shared prefixes, many versions per key, tombstones, values empty..multi-block; plus long tables of 150-700 keys with incompressible values spanning many 2 KiB filter ranges; plus tables with a user key of 65 527 .. 131 073 bytes - internal keys at and beyond 2^16 -, two keys sharing such a prefix, values of 16 383 .. 150 000 bytes) x max_block_size 16 B..1 MiB x Bloom bits 1..64: dump vs model, lookups at every (key, bound) around every entry, random cursor programs with reversals; (4) the table's filter block. Non-trivial = at least two entries / distinct keys; distinct by case text."
 }
 
 pub fn run(tier: &str, seed: u64, drv_path: &str, replay: Option<&str>, corpus: &str) -> Report {
@@ -674,6 +720,12 @@ pub fn run(tier: &str, seed: u64, drv_path: &str, replay: Option<&str>, corpus: 
         let block = *rng.pick(&[64usize, 100, 200, 256, 512, 1024, 4096]);
         let entries = gen_long_entries(&mut rng);
         jobs.push(Job::Table(Case { block, bloom: rng.range(4, 16) as usize, entries, pseed: rng.next() }));
+    }
+    let nhuge = if thorough { 80 } else { 10 };
+    for _ in 0..nhuge {
+        let block = *rng.pick(&[256usize, 4096, 1 << 17, 1 << 20]);
+        let entries = gen_huge_entries(&mut rng);
+        jobs.push(Job::Huge(Case { block, bloom: rng.range(4, 16) as usize, entries, pseed: rng.next() }));
     }
     let nsmall = if thorough { 200 } else { 32 };
     for _ in 0..nsmall {
